@@ -413,7 +413,7 @@ impl World for WorldO {
             };
             ops.push(op);
             if rng.chance(1, 12) {
-                ops.push(OOp::Advance { dseq: *rng.pick(&[1u32, 17, 100, 20_000]) });
+                ops.push(OOp::Advance { dseq: *rng.pick(&[1u32, 17, 100, 20_000, 1_100_000]) });
             }
         }
         (cfg, ops)
